@@ -37,6 +37,14 @@ func H_TD_C18_config() {
 	} else {
 		gldap.VAssertE(s.ClientAuth == tls.NoClientCert, "without WithMTLS no client certificate is requested")
 	}
+	// the certificates the directory issues (server, mTLS client) are leaves: their holder
+	// cannot sign further certificates that would verify against the generated CA
+	if mtls {
+		gldap.VAssertE(gldap.VIssuedLeaves() == 2, "WithMTLS: a server and a client certificate are issued by the generated CA")
+	} else {
+		gldap.VAssertE(gldap.VIssuedLeaves() == 1, "a server certificate is issued by the generated CA")
+	}
+	gldap.VAssertE(gldap.VIssuedSigners() == 0, "no issued certificate can itself issue certificates (only certificates issued by the configured CA verify)")
 	if mtls {
 		// a second directory in the same process gets a CA of its own: the first one's pool does
 		// not grow and the second one trusts only its own CA
